@@ -531,7 +531,8 @@ WRONG_POSTS = [
 ]
 MUTANTS = [
     (CT.TDMA, "% ARRAY_SIZE(l1s.tdma_sched.bucket);", "% (ARRAY_SIZE(l1s.tdma_sched.bucket) - 1);", "wrap_bucket_post"),
-    (CT.TDMA, "if (item_i->prio > item_j->prio)", "if (item_i->prio < item_j->prio)", "_tdma_sched_bucket_sort_"),
+    # an internal helper (leading underscore): engine/cli.py lets only the statement-level oracle turn its failing contract into a violation
+    (CT.TDMA, "if (item_i->prio > item_j->prio)", "if (item_i->prio < item_j->prio)", "bounded-native-oracle_execute"),
     (CT.TDMA, "\t/* clear/reset the bucket */\n\tbucket->num_items = 0;", "\t/* clear/reset the bucket */\n", "tdma_sched_execute_post.current_list_emptied"),
     (CT.TDMA, "if (bucket->num_items >= ARRAY_SIZE(bucket->item)) {\n\t\tputs(\"tdma_schedule bucket overflow\\n\");\n\t\treturn -1;\n\t}\n\n\tsched_item = ",
      "if (bucket->num_items > ARRAY_SIZE(bucket->item)) {\n\t\tputs(\"tdma_schedule bucket overflow\\n\");\n\t\treturn -1;\n\t}\n\n\tsched_item = ", "tdma_schedule_"),
